@@ -208,8 +208,8 @@ def gen_aimed_case(rng, force_dir=None):
     the random stream missed); amounts, calendars, clock, bound and root order stay random."""
     c = gen_case(rng, force_dir)
     fwd = c['dir'] == 'fwd'
-    kind = rng.choice(['sideways', 'sideways', 'staggered', 'milestone-summary', 'stale-capacity', 'id-twin'] if fwd
-                      else ['sideways', 'sideways', 'milestone-summary', 'stale-capacity', 'id-twin'])
+    kind = rng.choice(['sideways', 'sideways', 'staggered', 'milestone-summary', 'stale-capacity', 'id-twin', 'tiny-share'] if fwd
+                      else ['sideways', 'sideways', 'milestone-summary', 'stale-capacity', 'id-twin', 'tiny-share'])
     c['aimed'] = kind
     c['edit_calendars'] = []
     c['edit_same_scheduler'] = False
@@ -279,6 +279,15 @@ def gen_aimed_case(rng, force_dir=None):
         c['edit_calendars'] = [['a', rng.choice([wk(fewer, ['i', 8]), wk([0, 1, 2, 3, 4], ['i', rng.choice([2, 4])]),
                                                  ['wdict', None, None, [[d, ['i', 8 if d in fewer else 0]] for d in range(5)]]])]]
         c['edit_same_scheduler'] = rng.random() < 0.85
+    elif kind == 'tiny-share':
+        # a resource with 1024 units a day and amounts of an eighth of a unit: the share of a day that a task takes is a
+        # few seconds (1/8192 of a day = 10.546875 s, still a whole number of microseconds); dates must encode it exactly
+        out = [T(ids[i], None, resource='a', est=rng.choice([1, 1, 2, 3, 8, 8193, 8194, 16385, 4096, 8192]))
+               for i in range(rng.randint(2, 5))]
+        links = [[t_(0), t_(1)]] if rng.random() < 0.4 else []
+        c['tasks'], c['links'] = out, links
+        c['resources'] = [r for r in c['resources'] if r['name'] != 'a'] + [{'name': 'a', 'cal': wk([0, 1, 2, 3, 4], ['i', 1024])}]
+        c['balance'] = rng.random() < 0.8
     elif kind == 'id-twin':
         # a task waits for (backward: releases) two DIFFERENT tasks that carry the same id: a member M of the WBS and a
         # dated task X of another WBS (ids are unique per WBS only).  The one that binds is X - it ends late (starts
@@ -742,6 +751,7 @@ def run_property(ctx, pid, fail_bits, mismatch_bits, dirs=('fwd', 'bwd'), extra=
             'aimed_milestone_summary': sum(1 for c, _ in kept if c.get('aimed') == 'milestone-summary'),
             'aimed_stale_capacity': sum(1 for c, _ in kept if c.get('aimed') == 'stale-capacity'),
             'aimed_id_twin_prerequisites': sum(1 for c, _ in kept if c.get('aimed') == 'id-twin'),
+            'aimed_tiny_share_of_a_day': sum(1 for c, _ in kept if c.get('aimed') == 'tiny-share'),
             'calendar_edited_in_place': sum(1 for c, o in kept if o.get('edited_in_place')),
             'calendar_edited_same_scheduler_object': sum(1 for c, _ in kept if c.get('edit_calendars') and c.get('edit_same_scheduler')),
             'offgrid_discarded': len(cases) - len(kept), 'illformed_discarded': 0, 'returned': 0, 'runtime_error': 0, 'crash': 0}
